@@ -897,7 +897,8 @@ def report_spec(ctx, c, r):
     what = (f"{c['kind']} in {c['sys']} coordinates contradicts the property on the field {c['fields']} (field object built by "
         f"{c.get('path', 'lambda')}, {c.get('variant', 'default')} coordinate-system object) at "
         f"{r.get('point')}: component {r.get('component')} is {r.get('observed')}, expected {r.get('expected')}"
-        if "exception" not in r else f"{c['kind']} in {c['sys']} coordinates raised {r['exception']} on {c['fields']}")
+        if "exception" not in r else f"{c['kind']} in {c['sys']} coordinates raised {r['exception']} on {c['fields']} (field object built by "
+        f"{c.get('path', 'lambda')}, {c.get('variant', 'default')} coordinate-system object)")
     ctx.violation(key, what, {"kind": "spec", "item": f"{c['kind']}[{c['sys']}]", "input": c, "observed": r,
         "expected": "see property text", "theorem_or_tie": "specification predicate on the real operators"}, found_input=True)
 
